@@ -3,7 +3,7 @@ streams against harness and Lean driver, diff."""
 import os, subprocess, concurrent.futures as cf
 from .core import VERIF, NCPU, sh
 
-SAN = ["-fsanitize=address,undefined", "-fno-sanitize-recover=all", "-fno-omit-frame-pointer"]
+SAN = ["-fsanitize=address,undefined", "-fno-sanitize=alignment", "-fno-sanitize-recover=all", "-fno-omit-frame-pointer"]
 
 
 def cflags(repo, defines=()):
